@@ -99,6 +99,12 @@ def run_history(cfg, stored_i, sv_i, rules_i, hist, alpha="plain"):
     steps += 1
     if msg:
         return f"construct: {msg}", steps
+    if cfg.engine == "async" and stored is None:
+        # a pure query on a machine that is not active yet is only a query: it reports that
+        # there is no current state, it does not activate anything
+        msg = query_before_activation(p)
+        if msg:
+            return f"query before activation: {msg}", steps
     n = 0
     prev = None
     for i, op in enumerate(hist):
@@ -136,6 +142,26 @@ def run_history(cfg, stored_i, sv_i, rules_i, hist, alpha="plain"):
             return f"op {i} ({op}): {msg}", steps
         # nothing stored => after any completed sync call a state must be stored
     return None, steps
+
+
+def query_before_activation(p):
+    from statemachine.exceptions import InvalidStateValue
+    sm = p.impl.sm
+    field = p.impl.state_field
+    for what in ("current_state", "allowed_events"):
+        try:
+            got = getattr(sm, what)
+        except InvalidStateValue:
+            got = None
+        except Exception as e:   # noqa: BLE001
+            return f"sm.{what} raised {type(e).__name__}: {e}"
+        if got is not None and p.ref.value is None and p.cfg.driver == "inloop":
+            return f"sm.{what} returned {got!r} although the machine was never activated"
+        v = getattr(sm.model, field, None)
+        if v != p.ref.value or type(v) is not type(p.ref.value):
+            return (f"reading sm.{what} changed the stored state to {v!r} (reference: "
+                    f"{p.ref.value!r})")
+    return None
 
 
 def histories(L):
